@@ -245,7 +245,7 @@ pub fn run(tier: &str) -> Report {
     let mapfile = table.mapfile_text(REGS);
     let mut work: Vec<Work> = vec![];
     // compile direction: E-DFS over item sequences
-    let (max_items, depth, bound) = if thorough { (6, 2, 5) } else { (4, 2, 4) };
+    let (max_items, depth, bound) = if thorough { (6, 2, 6) } else { (5, 2, 4) };
     let mut seen = BTreeSet::new();
     for n in 1..=max_items {
         let stats = explore_dfs(bound, if thorough { 3_000_000 } else { 250_000 }, &|ch| gen_compile_case(ch, n, depth),
